@@ -23,5 +23,5 @@ Deliverables, for each of the two changes X in {a, b}, in directory /tmp/seeded/
   - patch.diff : output of "git -C /tmp/wt-$ID diff" containing ONLY the source change (no test files), applicable with "git apply" to a clean checkout;
   - the demonstration test file(s), plus a file DEMO.txt saying where to copy the test file inside the repository (relative path) and the exact "go test ... -run ..." command that fails with the change and passes without it;
   - meta.json : {"property": "$ID", "summary": "...what was changed...", "needs": "...what specific input/sequence/interleaving is needed for it to manifest...", "ran": ["...commands you ran and their outcome..."]}.
-After saving each patch, reset the worktree (git -C /tmp/wt-$ID checkout -- . && git -C /tmp/wt-$ID clean -fdq) before starting the next one, and leave the worktree clean at the end. Verify, before finishing, for each change: build OK; existing tests pass with the change; demo fails with the change; demo passes without it. Report briefly what you did.
+Do NOT use git stash (it is shared between worktrees); to set a change aside use 'git diff > file; git checkout -- .; git apply file'. Note that on the unmodified tree some tests already fail in this sandbox (coreV2/minter, a few in coreV2/transaction, coreV2/state/accounts, coreV2/state/candidates, and most of ./tests when run as one package): 'existing tests pass' therefore means: per-test outcomes identical to the unmodified tree. After saving each patch, reset the worktree (git -C /tmp/wt-$ID checkout -- . && git -C /tmp/wt-$ID clean -fdq) before starting the next one, and leave the worktree clean at the end. Verify, before finishing, for each change: build OK; existing tests pass with the change; demo fails with the change; demo passes without it. Report briefly what you did.
 P
